@@ -83,15 +83,22 @@ Sync(c, s) ==
   ELSE LET hv == HeapView(s.heap, s.regs[Cfg.heap.r], s.regs[Cfg.free.r], Roots(s), s.hi)
            peak == IF hv.reach > s.peak THEN hv.reach ELSE s.peak
        IN
-       IF hv.why # "" THEN Fail(s, "heap", hv.why \o " (at " \o n.k \o ")")
+       IF \E p \in DOMAIN Roots(s) : IsJunk(Roots(s)[p]) THEN
+            Fail(s, IF s.aftercall THEN "callenv" ELSE "undef", "a live object variable holds a destroyed or never-written pointer"
+                    \o (IF s.aftercall THEN " right after a call of the print runtime" ELSE "") \o " (at " \o n.k \o ")")
+       ELSE IF hv.why # "" THEN Fail(s, "heap", hv.why \o " (at " \o n.k \o ")")
        ELSE IF hv.F > peak + FootprintK THEN Fail(s, "footprint", "allocation frontier exceeds peak reachable blocks + K (at " \o n.k \o ")")
        ELSE LET bad == {p \in 1..Len(m.env) : Shallow(c, s, p)[1] # ""}
+                badU == {p \in bad : Shallow(c, s, p)[1] = "undef"}
             IN IF bad # {} THEN
-                    LET w == Shallow(c, s, CHOOSE p \in bad : TRUE)
-                    IN Fail(s, w[1], w[2] \o " (at " \o n.k \o ")")
+                    LET w == Shallow(c, s, IF badU # {} THEN CHOOSE p \in badU : TRUE ELSE CHOOSE p \in bad : TRUE)
+                    IN \* a variable that was right before a call of the print runtime and is wrong at the first statement
+                       \* boundary after it was broken by the call sequence (save / restore around the call): tag callenv
+                       Fail(s, IF s.aftercall /\ w[1] \in {"env", "undef"} THEN "callenv" ELSE w[1],
+                            w[2] \o (IF s.aftercall THEN " right after a call of the print runtime" ELSE "") \o " (at " \o n.k \o ")")
                ELSE LET tab2 == Learn(s)
                         m2 == AStep(QQ(c), m, TRUE)
-                        s2 == [s EXCEPT !.m = m2, !.tab = tab2, !.peak = peak, !.F = hv.F,
+                        s2 == [s EXCEPT !.m = m2, !.tab = tab2, !.peak = peak, !.F = hv.F, !.aftercall = FALSE,
                                         !.cov = [maxenv |-> IF Len(m.env) > s.cov.maxenv THEN Len(m.env) ELSE s.cov.maxenv,
                                                  maxdef |-> IF hv.ndeferred > s.cov.maxdef THEN hv.ndeferred ELSE s.cov.maxdef,
                                                  maxlin |-> IF hv.nlinear > s.cov.maxlin THEN hv.nlinear ELSE s.cov.maxlin,
@@ -102,7 +109,7 @@ Sync(c, s) ==
 
 PInit(c) ==
   [IsaInit(PP(c), Cases[c].args, Cfg.nblocks) EXCEPT !.strict = Cfg.strict_encode]
-    @@ [c |-> c, m |-> AInit(QQ(c), Cases[c].args), marks |-> 0, tab |-> <<>>, peak |-> 0, F |-> 0,
+    @@ [c |-> c, m |-> AInit(QQ(c), Cases[c].args), marks |-> 0, tab |-> <<>>, peak |-> 0, F |-> 0, aftercall |-> FALSE,
         cov |-> [maxenv |-> 0, maxdef |-> 0, maxlin |-> 0, maxshared |-> 0]]
 
 PStep(s) ==
@@ -117,7 +124,7 @@ PStep(s) ==
           ELSE IF s2.status = "run" /\ Len(s2.out) > Len(s.out) THEN
              (IF Len(s2.out) > Len(s2.m.out) THEN Fail(s2, "out", "code printed something the AxCut machine has not printed")
               ELSE IF s2.out[Len(s2.out)] # s2.m.out[Len(s2.out)] THEN Fail(s2, "out", "printed value or print primitive differs")
-              ELSE s2)
+              ELSE [s2 EXCEPT !.aftercall = TRUE])
           ELSE s2
 
 Init == st \in {PInit(c) : c \in 1..NC}
